@@ -39,12 +39,13 @@ def _t_boom(kind, marker='m'): return ('exception', (kind, marker), ('boom', (ki
 def _t_ctxm(a=0): return ('ctx-result', a, ('ctxm', (a,), {}))
 def _t_fac1(x): return ('result', ['fac1', x], ('fac1', (x,), {}))
 def _t_fac2(x, y=5, *, z=None): return ('result', ['fac2', x, y, z], ('fac2', (x, y), {'z': z}))
+def _t_slow(v, ticks=0): return ('result', ['slow', v], ('slow', (v, ticks), {}))
 def _t_vm(a, b=0): return ('result', ['vm', a, b], ('view.vm', (a, b), {}))
 
 
 TWINS = {
     'ok': _t_ok, 'noargs': _t_noargs, 'echo': _t_echo, 'kwonly': _t_kwonly, 'rpcerr': _t_rpcerr,
-    'typed': _t_typed, 'fac1': _t_fac1, 'fac2': _t_fac2, 'boom': _t_boom, 'ctxm': _t_ctxm, 'view.vm': _t_vm,
+    'typed': _t_typed, 'slow': _t_slow, 'fac1': _t_fac1, 'fac2': _t_fac2, 'boom': _t_boom, 'ctxm': _t_ctxm, 'view.vm': _t_vm,
 }
 
 
